@@ -168,7 +168,12 @@ Definition expected_cache_methods : fn_table := [
    buildEnumFieldSchema since /repo 32db692: when newRefPlaceholder found the ref (didExist), To is
    looked at (`ref.To.( *EnumSchema )`, an error if it is something else) — in the machine: the hit
    branch of the PRefLookup step, for a name without references; there is no hook point between
-   refto.lookup and this read, so it belongs to that step, inside the critical section *)
+   refto.lookup and this read, so it belongs to that step, inside the critical section
+   (proofs/ConcLeafProofs.v: the cell found there is linked in every state of the machine).
+   buildMessageFieldSchema since /repo d286176: the mirror guard in its didExist branch
+   (`ref.To.( *EnumSchema )` must fail; To == nil — a type being built further up the holder's own
+   stack — passes) — the hit branch of PRefLookup for any name; it landed while this projection was
+   being tested and needed no table update *)
 Definition expected_placeholder_functions : fn_table := [
   ("SchemaSetFromFiles", true, ["call:newRefPlaceholder"; "write:To"]);
   ("buildEnumFieldSchema", false, ["call:newRefPlaceholder"; "write:To"; "hook:ref.linked"]);
